@@ -6,8 +6,9 @@
      followed by a later Rss below the optimum was accepted) - the guard that closes it is part of PRss.
 (C)  c04_drv fits real PLS models (X 6..40 x 1..10 full column rank, 1..3 responses, noise 0..dominant, all scaling pairs,
      1..rank LVs, 3..10 unseen objects), computes per (a, j) the residual sum of squares of recalculated_y, the independent
-     least-squares fit by LAPACK dgels, coefficient-form predictions from PLSBetasCoeff, statistics on unseen objects and a
-     paired model of c*y+d; TLC validates every event against TracePls.tla and keeps the previous rss per response itself.
+     least-squares fit by LAPACK dgels, coefficient-form predictions from PLSBetasCoeff, statistics on unseen objects, paired
+     models of c*y+d (|c| down to 1e-8 / up to 1e8) and of X*s (change of units), the score predictor looped into one output matrix,
+     and a class of cases with one predictor in small units; TLC validates every event against TracePls.tla and keeps the previous rss per response itself.
 """
 import os, shutil
 from vf import build, tlc, trace, ledgerkit
@@ -48,7 +49,12 @@ def _sig(ev):
     if e == "Stat":
         return "PLS:r2", "%s: unseen objects, LV %d response %d: reported R2 / RMSE differ from their definitions by %.3g / %.3g" % (where, ev["a"], ev["j"], ev["r2gap"] * 1e-12, ev["rmsegap"] * 1e-12)
     if e == "Affine":
-        return "PLS:affine", "%s: y -> %.3f*y + %.3f sd: predictions do not map the same way: %.3g (training) / %.3g (unseen)" % (where, ev["c"] * 1e-3, ev["d"] * 1e-3, ev["errTrain"] * 1e-12, ev["errNew"] * 1e-12)
+        return "PLS:affine", "%s: y -> c*y + d with c = %.3g (|c| ~ 1e%d), d = %.3f |c| sd: predictions do not map the same way: %.3g (training) / %.3g (unseen)" % (
+            where, ev["c"] * 1e-3, ev.get("lg", 0), ev["d"] * 1e-3, ev["errTrain"] * 1e-12, ev["errNew"] * 1e-12)
+    if e == "XScale":
+        return "PLS:xscale", "%s: X -> X * s with s ~ 1e%d (change of units): predictions change by %.3g (training) / %.3g (unseen) of sd(y)" % (where, ev["lg"], ev["errTrain"] * 1e-12, ev["errNew"] * 1e-12)
+    if e == "Reuse":
+        return "PLS:predict:reused-output", "%s: PLSYPredictor called for a = 1..%d into one output matrix differs from recalculated_y by %.3g of sd(y)" % (where, ev["calls"], ev["err"] * 1e-12)
     if e == "Abort":
         return "PLS:fit:abort:rc%s" % ev.get("rc"), "case %s: the fit did not return (rc=%s)" % (ev.get("case"), ev.get("rc"))
     if e == "Shape":
@@ -68,8 +74,10 @@ def _would_fail(e):
         return e["errTrain"] > TOL or e["errNew"] > TOL
     if k == "Stat":
         return e["r2gap"] > TOL or e["rmsegap"] > TOL
-    if k == "Affine":
+    if k in ("Affine", "XScale"):
         return e["errTrain"] > TOL or e["errNew"] > TOL
+    if k == "Reuse":
+        return e["err"] > TOL
     return True
 
 
@@ -94,7 +102,7 @@ def model_part(ctx):
     if not r.ok:
         raise InfraError("Pls.tla (least-squares scope): ledger invariant %s fails:\n%s" % (r.violation, r.trace_text[:1500]))
     # PBeta / PStat / PAffine are pure checks (ledger state unchanged): "taken" = TLC generated successors through them
-    z = ledgerkit.never_taken(r, ("PFit", "PRss", "POls", "PBeta", "PStat", "PAffine", "PEnd"))
+    z = ledgerkit.never_taken(r, ("PFit", "PRss", "POls", "PBeta", "PStat", "PAffine", "PXScale", "PReuse", "PEnd"))
     if z:
         raise InfraError("Pls.tla (least-squares scope): actions never taken: %s" % z)
     ctx.note("Pls.tla ledger (least-squares scope): %d states, invariants InvR2Range InvFloor hold, every action taken" % r.distinct)
@@ -119,7 +127,10 @@ def conformance(ctx, total, parts, only=None):
         fits = [e for e in events if e["e"] == "Fit"]
         if not fits:
             raise InfraError("c04 harness produced no Fit events")
-        kinds = {k: sum(1 for e in events if e["e"] == k) for k in ("Rss", "Ols", "Beta", "Stat", "Affine")}
+        kinds = {k: sum(1 for e in events if e["e"] == k) for k in ("Rss", "Ols", "Beta", "Stat", "Affine", "XScale", "Reuse")}
+        kinds["small_unit_cases"] = sum(1 for e in events if e["e"] == "Fit" and e.get("small", -1) >= 0)
+        kinds["affine_wide"] = sum(1 for e in events if e["e"] == "Affine" and abs(e.get("lg", 0)) >= 3)
+        kinds["xscale_wide"] = sum(1 for e in events if e["e"] == "XScale" and abs(e.get("lg", 0)) >= 3)
         if only is None and min(kinds.values()) == 0:
             raise InfraError("c04 harness stopped logging some event kind: %s" % kinds)
         for f in fits:
@@ -130,15 +141,17 @@ def conformance(ctx, total, parts, only=None):
             if not f or any(e["e"] in ("Abort", "Shape") for e in b):
                 continue
             f = f[0]
-            cnt = {k: sum(1 for e in b if e["e"] == k) for k in ("Rss", "Stat", "Ols", "End")}
-            if cnt != dict(Rss=f["ny"] * f["nlv"], Stat=f["ny"] * f["nlv"], Ols=f["ny"], End=1):
+            cnt = {k: sum(1 for e in b if e["e"] == k) for k in ("Rss", "Stat", "Ols", "Reuse", "End")}
+            if cnt != dict(Rss=f["ny"] * f["nlv"], Stat=f["ny"] * f["nlv"], Ols=f["ny"], Reuse=1, End=1):
                 raise InfraError("c04 harness logged an incomplete block for case %s: %s" % (b[0].get("case"), cnt))
         for b in blocks:
             if len(b) < 30 and any(e["e"] == "Affine" for e in b):
                 ctx.sample(dict(case=b[0].get("case"), seed=seed, events=[{k: v for k, v in e.items() if k not in ("cx", "prev_")} for e in b[:16]]), 3)
         ctx.cov["rule"] = ("seeded random regression problems: n 6..40, p 1..min(10,n-2), ny 1 (even cases) or 2..3, noise class 0 (exact linear) / 5% / 70% / 600% cycling, "
                            "all 49 scaling pairs -1..5 x -1..5 drawn at random, nlv = rank for half of the cases else 1..rank, 3..10 unseen objects; "
-                           "a case = one fitted model (plus a paired model of c*y+d for single centred responses); distinct key = (p, ny, nlv, noise class, xscaling, yscaling); every case is non-trivial")
+                           "every eighth case has one predictor in small units (spread 1e-4, below the zero-scale guard: rank p-1, nlv <= p-1); "
+                           "a case = one fitted model plus paired models: c*y+d for single centred responses (|c| 1e-8..1e8 when centring only), X*s (s 1e-8..1e6 without a scaling "
+                           "factor, else as far as the scale factors stay admissible), and the score predictor looped into one output matrix; distinct key = (p, ny, nlv, noise class, xscaling, yscaling); every case is non-trivial")
         ctx.cov["observed_max"] = dict(maxima)
         ctx.cov["tolerance"] = dict(TolAlg=1e-8, TolMono="1e-8 of the response's total sum of squares")
         ctx.cov["events"] = kinds
@@ -157,7 +170,7 @@ def conformance(ctx, total, parts, only=None):
 def selftests(ctx, events):
     blocks = [b for b in tlc.split_blocks(events) if not any(e["e"] in ("Abort", "Shape") for e in b)]
     ev = [e for b in blocks[:40] for e in b]
-    ev = [e for e in ev if not (e["e"] in ("Rss", "Ols", "Beta", "Stat", "Affine") and _would_fail(e))]
+    ev = [e for e in ev if not (e["e"] in ("Rss", "Ols", "Beta", "Stat", "Affine", "XScale", "Reuse") and _would_fail(e))]
 
     def corrupt_ols(evs):
         for e in evs:
